@@ -1,7 +1,7 @@
 # -*- coding: utf-8 -*-
 
 from enum import IntEnum
-from typing import Any, Type, Union
+from typing import Any, Optional, Type, Union
 
 from .. import (
     Argument,
@@ -46,6 +46,32 @@ class SchemaChange:
 
     def __eq__(self, other: Any) -> bool:
         return isinstance(other, type(self)) and str(self) == str(other)
+
+
+class RootTypeChanged(SchemaChange):
+    format_str = (
+        "The {self.operation} root type changed from "
+        "{self.old_type_name} to {self.new_type_name}."
+    )
+
+    def __init__(
+        self,
+        operation: str,
+        old_type: Optional[ObjectType],
+        new_type: Optional[ObjectType],
+    ):
+        self.operation = operation
+        self.old_type = old_type
+        self.new_type = new_type
+        self.old_type_name = old_type.name if old_type else "(none)"
+        self.new_type_name = new_type.name if new_type else "(none)"
+        # Operations of that kind select on another type (or cannot be run
+        # any more); gaining a root type breaks nothing.
+        self.severity = (
+            SchemaChangeSeverity.BREAKING
+            if old_type is not None
+            else SchemaChangeSeverity.COMPATIBLE
+        )
 
 
 class TypeChangedKind(SchemaChange):
